@@ -76,6 +76,7 @@ func Load(repoDir string, patterns []string, overlay map[string][]byte, tags str
 	}
 	e.intr = map[string]intrinsicFn{}
 	registerIntrinsics(e)
+	registerGobModel(e)
 	if rp := prog.ImportedPackage("runtime"); rp != nil {
 		if t := rp.Type("errorString"); t != nil {
 			e.rtErrT = t.Object().Type()
